@@ -62,3 +62,7 @@ Theorem C20_drag_identity : forall canon m, NoDup canon -> wf_mv canon m -> g_ar
   inplace_one canon m (coeffs_of canon m 0) = m.
 Proof. exact inplace_fixpoint. Qed.
 Print Assumptions C20_drag_identity.
+
+(* ---- source pins: the functions whose hand-written model carries the theorems above are still, textually (after
+   ast normalisation), the functions the model was validated against; an edit breaks Bridge/Pins_C20.v ---- *)
+From KV Require Bridge.Pins_C20.
